@@ -10,6 +10,7 @@ import (
 	"sort"
 	"strings"
 	"sync"
+	"time"
 
 	lua "github.com/yuin/gopher-lua"
 
@@ -207,7 +208,27 @@ func runC06(r *harness.Run) {
 	r.Rule = fmt.Sprintf("explicit-state BFS over drive histories, complete up to depth %d and extended by one further level of resume operations: operations create/wrap (over %d body kinds: returning, yielding 0/1/3 values, looping with local counter and shared upvalue, yielding from nested and tail-called helpers, erroring with string/table/fault, resuming another coroutine, resuming itself, nested generator), resume / call of any of %d slots with 0/1/3 payload values, generic-for over a wrapped generator; after every step the status of every coroutine and coroutine.running() are observed. "+
 		"Each history is rendered as a program and executed from scratch on gopher-lua and on the reference interpreter; states are merged on (slot kinds/bodies, statuses, successful resumes per slot); non-trivial = distinct abstract states", fullDepth, len(bodies), c06Slots)
 	r.Assumptions = []string{"luaref coroutines (goroutine-backed) are the reading of Lua 5.1's coroutine library", "bodies' control flow does not depend on payload values, so merged states have the same futures",
-		"not generated: yield across pcall/metamethod/iterator boundaries, resume of a coroutine whose status is normal (Lua 5.1 leaves these to implementation detail)"}
+		"not generated: yield across pcall/metamethod/iterator boundaries (an error in PUC-Lua 5.1, supported by gopher-lua)"}
+
+	// canaries: resuming a coroutine that is itself waiting for the current one (status normal)
+	// must be refused; an interpreter that goes ahead recurses without bound and takes the process
+	// down, so these run in child processes first and, if they crash, the histories that reach the
+	// situation are judged by the canary alone
+	skipNormal := false
+	for _, cn := range []struct{ name, src string }{
+		{"resume-resumer", `local co co = coroutine.create(function() local inner = coroutine.create(function() return coroutine.resume(co) end) return coroutine.resume(inner) end) local a, b, c = coroutine.resume(co) assert(a == true and b == true and c == false)`},
+		{"wrap-calls-resumer", `local f f = coroutine.wrap(function() local inner = coroutine.wrap(function() return pcall(f) end) return inner() end) local ok = f() assert(ok == false)`},
+		{"resume-grand-resumer", `local co co = coroutine.create(function() local mid = coroutine.create(function() local inner = coroutine.create(function() return coroutine.resume(co) end) return coroutine.resume(inner) end) return coroutine.resume(mid) end) local a, b, c, d = coroutine.resume(co) assert(a and b and c and d == false)`},
+	} {
+		crashed, detail := canaryRun(cn.src, 60*time.Second)
+		r.Eval("canary/"+cn.name, true, func() interface{} { return map[string]interface{}{"case": "canary", "program": cn.src} })
+		if crashed {
+			skipNormal = true
+			r.Violation("canary/"+cn.name+"/process-crash", "resuming a coroutine whose status is normal must be refused (false, message); the interpreter process died instead: "+detail+"\nprogram: "+cn.src, map[string]interface{}{"program": cn.src})
+		} else if detail != "ok" {
+			r.Violation("canary/"+cn.name+"/wrong-result", "resuming a coroutine whose status is normal must be refused with (false, message): "+detail+"\nprogram: "+cn.src, map[string]interface{}{"program": cn.src})
+		}
+	}
 
 	type state struct {
 		hist []c06Op
@@ -279,6 +300,10 @@ func runC06(r *harness.Run) {
 				if mo.Indeterminate != "" {
 					r.Count("indeterminate", 1)
 					r.Count("indeterminate/"+firstWords(mo.Indeterminate, 3), 1)
+					continue
+				}
+				if skipNormal && mo.NormalResumes > 0 {
+					r.Count("not-run/resume-of-normal-coroutine (canary crashed)", 1)
 					continue
 				}
 				o := impls[wi].Run(src, int64(mo.Steps)*100+20000)
